@@ -537,7 +537,7 @@ func (g c32RecvGen) Apply(op string) (qpeerGen, bool) {
 
 func TestVerif_C32(t *testing.T) {
 	vx.Run(t, "C32", func(c *vx.Ctx) {
-		c.Rule("q-peer, each case on a fresh handshaken Conn in its own synctest bubble, every enabled operation sequence up to the depth of the part, shortest first. send: Write(1|100|5000)/Flush/CloseWrite/Reset, peer STOP_SENDING/MAX_STREAM_DATA, ack-all / all-outstanding-lost / PTO on a local uni, local bidi or accepted bidi stream with a 150-byte stream window; a monitor checks every frame sent. recv: peer STREAM/RESET_STREAM with end offsets {k-1,k,k+1} around the known final size (or the highest offset received), new data with/without FIN, Read(100), Read(1), CloseRead on a peer uni/bidi stream; reference RFC 9000 4.5. Non-trivial = the whole sequence ran (or ended in the expected FINAL_SIZE_ERROR). Counters: states = histories explored completely (stateless search, no deduplication), transitions = operations applied to the real conn and checked, traces = cases executed.")
+		c.Rule("q-peer, each case on a fresh handshaken Conn in its own synctest bubble, every enabled operation sequence up to the depth of the part, shortest first. send: Write(1|100|5000)/Flush/CloseWrite/Reset, peer STOP_SENDING/MAX_STREAM_DATA, ack-all / all-outstanding-lost / PTO on a local uni, local bidi or accepted bidi stream with a 150-byte stream window; a monitor checks every frame sent. recv: peer STREAM/RESET_STREAM with end offsets {k-1,k,k+1} around the known final size (or the highest offset received), new data with/without FIN, Read(100), Read(1), CloseRead on a peer uni/bidi stream; recv-ranges (shallower, finer STREAM alphabet): peer STREAM frames carrying the L bytes [k+D-L, k+D) for every L in {0,1,2}, D in {-1,0,1,2}, each with and without FIN (empty only with FIN), so that exact / inner duplicates of received data, ranges overlapping its end, new contiguous ranges, new ranges behind a gap, gap-filling ranges and the empty FIN-only frame all occur with and without FIN, mixed with RESET_STREAM(final k+{-1,0,1}) and Read(100); reference RFC 9000 4.5. Non-trivial = the whole sequence ran (or ended in the expected FINAL_SIZE_ERROR). Counters: states = histories explored completely (stateless search, no deduplication), transitions = operations applied to the real conn and checked, traces = cases executed.")
 		c.Assume("bytes that were already moved to the lock-free read buffer may still be returned by Read after a reset; only io.EOF and a missing reset error are violations")
 		c.Assume("after the application called CloseRead the conn may forget the stream: RFC 9000 4.5 makes FINAL_SIZE_ERROR non-mandatory for closed streams, so a contradiction that arrives after CloseRead may or may not be reported (a wrong error code or the rejection of a consistent frame is still a violation), and Read results after CloseRead are not checked")
 		c.Assume("flow-control limits are far away (recv) / connection-level limit is far away (send); C20 covers those")
@@ -547,7 +547,7 @@ func TestVerif_C32(t *testing.T) {
 			[]string{"w100", "w5000", "fl", "cw", "rst", "ss", "msd", "ack", "loss", "pto"},
 			[]string{"w1", "w100", "w5000", "fl", "cw", "rst", "ss", "msd", "ack", "loss", "pto"})
 		recvOps := []string{"d+", "d+f", "f@-1", "f@0", "f@1", "d@0", "d@1", "r@-1", "r@0", "r@1", "rd", "rd1", "cr"}
-		rangeOps := append(c32RangeOps([]int{0, 1, 2}, vx.Pick(c, []int{-1, 0, 1, 2}, []int{-1, 0, 1, 2})), "r@-1", "r@0", "r@1", "rd")
+		rangeOps := append(c32RangeOps([]int{0, 1, 2}, []int{-1, 0, 1, 2}), "r@-1", "r@0", "r@1", "rd")
 		type part struct {
 			name  string
 			kinds []string
